@@ -37,7 +37,7 @@ struct Config {
     int custom = 0;              // 1: frames with the scripted custom lexer
     double deadline = 1e18;
     std::string one_spec, one_prec, one_rprec, one_input; bool one = false, has_input = false;
-    std::string seeds;
+    std::string seeds, dump;
     int prec_levels = 3;         // term precedence values 0..prec_levels-1
     int rprec_max = 0;           // explicit rule precedence values 1..rprec_max on at most rprec_rules rules
     int rprec_rules = 1;
@@ -829,6 +829,7 @@ int main(int argc, char** argv) {
         else if (a == "--rprec") cfg.one_rprec = next();
         else if (a == "--input") { cfg.one_input = next(); cfg.has_input = true; }
         else if (a == "--seeds") cfg.seeds = next();
+        else if (a == "--dump") cfg.dump = next();
         else if (a == "-v") cfg.verbose = true;
         else if (a == "--list-frames") { for (auto* f : registry()) std::printf("%s size=%zu\n", f->name.c_str(), f->object_size()); return 0; }
         else { std::fprintf(stderr, "unknown argument %s\n", a.c_str()); return 2; }
@@ -852,6 +853,26 @@ int main(int argc, char** argv) {
         explore(*f, g); ctr["seeds"]++;
         return true;
     };
+    if (!cfg.dump.empty()) {
+        // conformance dump (DESIGN 1.6): what the injected frame produces for each listed grammar, in the format of gen/dsl_gen.py
+        std::ifstream in(cfg.dump); std::string line; ref::StrSpace sp; int spT = -1;
+        while (std::getline(in, line)) {
+            if (line.empty() || line[0] == '#') continue;
+            std::istringstream ls(line); int nt, t; std::string spec; ls >> nt >> t >> spec;
+            Gram g; if (!parse_spec(spec, nt, t, g)) return 2;
+            FrameBase* f = find_frame(g); if (!f) { std::printf("### %d %d %s\nNO-FRAME\n", nt, t, spec.c_str()); continue; }
+            if (spT != t) { sp.init(t, cfg.maxlen); spT = t; }
+            std::printf("### %d %d %s\n", nt, t, spec.c_str());
+            BuildResult br = f->build(g);
+            if (!br.ok) { std::printf("CONSTRUCTION-FAILED\n"); continue; }
+            std::string d = f->diag(); std::istringstream ds(d); std::string l;
+            while (std::getline(ds, l)) { if (l.rfind("Parser object size", 0) == 0) continue; std::printf("%s\n", l.c_str()); }
+            std::printf("---\n");
+            if (d.find("R/R CONFLICT") != std::string::npos) { std::printf("parses skipped: reduce/reduce conflict (documented as undefined)\n"); continue; }
+            for (int id = 0; id < sp.count; ++id) { ParseObs o = f->parse(sp.str[id].data(), sp.str[id].size(), PM_OSTREAM); std::printf("%s => %s | %s\n", sp.str[id].c_str(), o.horizon ? "horizon" : o.ok ? "ok" : "empty", o.err.c_str()); }
+        }
+        return 0;
+    }
     if (cfg.one) {
         if (cfg.nt < 0 || cfg.t < 0) { std::fprintf(stderr, "--one needs --nt and --t\n"); return 2; }
         bool ok = run_spec(cfg.one_spec, cfg.one_prec, cfg.one_rprec, cfg.nt, cfg.t);
